@@ -156,7 +156,9 @@ def build_harness(name, sources, whitebox_of=(), extra_flags=(), simhal=True):
         for old in objdir.glob(name + "-*"):
             old.unlink()
         objs = [str(o) for o in sorted(objdir.glob("*.o")) if o.stem not in whitebox_of]
-        cmd = ["gcc", *SAN_FLAGS, *extra_flags, *inc_flags(), "-DLIBROOT=\"%s\"" % LIBROOT,
+        srcdirs = ["-I" + str(LIBROOT / d) for d in ("src/iec60870/apl", "src/iec60870/cs101", "src/iec60870/cs104",
+                                                      "src/iec60870/link_layer", "src/iec60870", "src/common")]
+        cmd = ["gcc", *SAN_FLAGS, *extra_flags, *inc_flags(), *srcdirs, "-I" + str(CACHE / "gen"),
                *[str(s) for s in srcs], *objs, "-o", str(exe), "-lpthread", "-lm"]
         rc, out = sh(cmd)
         if rc:
@@ -201,7 +203,7 @@ def write_if_changed(path, text):
 
 
 def coq_project():
-    files = sorted(str(p.relative_to(COQ)) for p in COQ.rglob("*.v") if "scratch" not in p.parts)
+    files = sorted(str(p.relative_to(COQ)) for p in COQ.rglob("*.v") if "scratch" not in p.parts and "extract" not in p.parts)
     txt = "-Q . L60870\n-arg -w -arg -all\n" + "\n".join(files) + "\n"
     changed = write_if_changed(COQ / "_CoqProject", txt)
     if changed or not (COQ / "Makefile").exists():
@@ -260,9 +262,50 @@ def print_assumptions(module, names):
         if "Closed under the global context" in txt:
             final[n] = "closed"
         else:
-            axs = re.findall(r"^([A-Za-z_][\w.']*)\s*:", txt, flags=re.M)
+            axs = [a for a in re.findall(r"^([A-Za-z_][\w.']*)\s*:", txt, flags=re.M) if a != "Axioms"]
             final[n] = axs or [txt.strip()[:200]]
     return final, out
+
+
+def build_model(name, extract_v, ml_sources, main):
+    """Extract (coqc on extract_v, which must `Extraction "model_<name>.ml" ...`) and link the OCaml
+    runner from driver/zutil.ml + ml_sources + main.  Returns the executable path."""
+    vos = sorted(COQ.rglob("*.vo"))
+    key = hashlib.sha256()
+    key.update(Path(extract_v).read_bytes())
+    for p in vos:
+        key.update(str(p).encode())
+        key.update(str(p.stat().st_mtime_ns).encode())
+    for p in [VERIF / "driver" / "zutil.ml"] + [Path(x) for x in ml_sources] + [Path(main)]:
+        key.update(Path(p).read_bytes())
+    out = CACHE / "ml" / name
+    exe = out / ("run_%s_%s" % (name, key.hexdigest()[:16]))
+    with Lock("ml-" + name):
+        if exe.exists():
+            return exe
+        if out.exists():
+            shutil.rmtree(out)
+        out.mkdir(parents=True)
+        rc, o = sh(["timeout", "600", "coqc", "-Q", str(COQ), "L60870", "-w", "-all", str(extract_v), "-o", str(out / (Path(extract_v).stem + ".vo"))], cwd=out)
+        if rc:
+            raise RuntimeError("extraction failed:\n" + o[-3000:])
+        srcs = []
+        for p in [VERIF / "driver" / "zutil.ml"] + [Path(x) for x in ml_sources] + [Path(main)]:
+            shutil.copy(p, out / Path(p).name)
+        (out / "zutil.ml").write_text("open Model_%s\n" % name + (VERIF / "driver" / "zutil.ml").read_text())
+        mods = sorted(out.glob("model_*.ml"))
+        order = []
+        for m in mods:
+            if m.with_suffix(".mli").exists():
+                order.append(m.with_suffix(".mli").name)
+            order.append(m.name)
+        order += ["zutil.ml"] + [Path(x).name for x in ml_sources] + [Path(main).name]
+        rc, o = sh(["ocamlfind", "ocamlopt", "-O2", "-w", "-a", "-package", "str", "-linkpkg", *order, "-o", exe.name], cwd=out)
+        if rc:
+            rc, o = sh(["ocamlfind", "ocamlopt", "-w", "-a", "-package", "str", "-linkpkg", *order, "-o", exe.name], cwd=out)
+        if rc:
+            raise RuntimeError("OCaml build failed:\n" + o[-3000:])
+    return exe
 
 
 # ------------------------------------------------------------------ PRNG (splitmix64)
